@@ -6,6 +6,7 @@ import (
 	"fmt"
 	"go/constant"
 	"go/types"
+	"os"
 	"strings"
 
 	"golang.org/x/tools/go/ssa"
@@ -61,12 +62,17 @@ func buildIDLModel(p *Prog) (*idlModel, string) {
 			}
 		}
 		s := m.a.sums[f]
+		if os.Getenv("VLDEBUG") != "" && s != nil {
+			fmt.Fprintf(os.Stderr, "DEBUG reader %s lenIsNet=%v\n", f.Name(), s.lenIsNet)
+		}
 		if s != nil && s.lenIsNet {
 			if tc, why := m.a.tokenCharset(f); tc != nil {
 				m.tokens[f] = tc
 				m.tokens[origFn(f)] = tc
 			} else {
-				_ = why
+				if os.Getenv("VLDEBUG") != "" {
+					fmt.Fprintf(os.Stderr, "DEBUG tokenCharset %s: %s\n", f.Name(), why)
+				}
 			}
 			continue
 		}
